@@ -15,6 +15,9 @@
 //! output
 //!   full: OK | V <field> <code> | B <code>          (V = rejected by account validation, B = by the handler body)
 //!   val : PASSV | V <field> <code>                   (only the account-validation verdict is reported)
+//!   gate: PASSB | V <field> <code> | B <6016|6017|6084>  (venue instructions: validation verdict and the
+//!         operational-state refusal of the handler; any other body outcome — the venue CPI cannot run — is PASSB)
+//!   risk: as full (scenario cells of the reduce-only valuation rule)
 //!   + " STORE-CHANGED" when a rejected transaction left any account different (never expected)
 //!
 //! The phase (validation vs body) and the offending field are read from the Anchor error log line, which on
@@ -111,6 +114,8 @@ fn fixture() -> std::rc::Rc<Fx> {
 }
 
 const U: u64 = 1_000_000; // one token (6 decimals)
+/// BankPaused, BankReduceOnly, BankKilledByBankruptcy: what mode `gate` reports of a handler-body refusal
+const GATE_CODES: [u32; 3] = [6016, 6017, 6084];
 pub const STRANGER_PROGRAM: Pubkey = solana_program::pubkey!("Stranger11111111111111111111111111111111111");
 
 fn tagged_key(tag: &str) -> Pubkey {
@@ -741,7 +746,7 @@ fn wrapped(v: f64) -> marginfi_type_crate::types::WrappedI80F48 {
     I80F48::from_num(v).into()
 }
 
-fn ix_data(name: &str, c: &mut Cell) -> Vec<u8> {
+fn ix_data(name: &str, c: &mut Cell, m: &[AccountMeta]) -> Vec<u8> {
     let k = |c: &mut Cell, n: &str| c.resolve(n);
     match name {
         "marginfi_group_initialize" => ixd::MarginfiGroupInitialize {}.data(),
@@ -817,7 +822,7 @@ fn ix_data(name: &str, c: &mut Cell) -> Vec<u8> {
         "lending_account_withdraw_emissions" => ixd::LendingAccountWithdrawEmissions {}.data(),
         "lending_account_settle_emissions" => ixd::LendingAccountSettleEmissions {}.data(),
         "lending_account_liquidate" => {
-            let (nl, nr) = liquidate_counts(c);
+            let (nl, nr) = liquidate_counts(c, m);
             ixd::LendingAccountLiquidate { asset_amount: U, liquidatee_accounts: nl, liquidator_accounts: nr }.data()
         }
         "lending_account_start_flashloan" => ixd::LendingAccountStartFlashloan { end_index: 1 }.data(),
@@ -959,12 +964,23 @@ fn venue_ix_data(name: &str, c: &mut Cell) -> Vec<u8> {
     }
 }
 
-fn liquidate_counts(c: &mut Cell) -> (u8, u8) {
-    let (accl, accu) = (c.resolve("accL"), c.resolve("accU"));
-    let (bk1, bk2) = (c.resolve("bk1"), c.resolve("bk2"));
-    let nr = remaining_for(&c.w, &accl, &[bk1, bk2]).len() as u8;
-    let nl = remaining_for(&c.w, &accu, &[]).len() as u8;
-    (nl, nr)
+fn is_type(c: &Cell, k: &Pubkey, disc: [u8; 8]) -> bool {
+    c.w.account(k).map(|x| x.owner == marginfi::ID && x.data.len() >= 8 && x.data[..8] == disc).unwrap_or(false)
+}
+fn acct_key(c: &Cell, m: &[AccountMeta], i: usize) -> Option<Pubkey> {
+    m.get(i).map(|x| x.pubkey).filter(|k| is_type(c, k, discriminators::ACCOUNT))
+}
+fn bank_key(c: &Cell, m: &[AccountMeta], i: usize) -> Option<Pubkey> {
+    m.get(i).map(|x| x.pubkey).filter(|k| is_type(c, k, discriminators::BANK))
+}
+
+fn liquidate_counts(c: &mut Cell, m: &[AccountMeta]) -> (u8, u8) {
+    match (bank_key(c, m, 1), bank_key(c, m, 2), acct_key(c, m, 3), acct_key(c, m, 5)) {
+        (Some(b1), Some(b2), Some(l), Some(u)) => {
+            (remaining_for(&c.w, &u, &[]).len() as u8, remaining_for(&c.w, &l, &[b1, b2]).len() as u8)
+        }
+        _ => (0, 0),
+    }
 }
 
 /// remaining accounts of the base transaction of `name` (fixture objects; all banks use Fixed prices, so
@@ -972,20 +988,25 @@ fn liquidate_counts(c: &mut Cell) -> (u8, u8) {
 fn remaining(name: &str, c: &mut Cell, m: &[AccountMeta]) -> Vec<AccountMeta> {
     let k = |c: &mut Cell, n: &str| c.resolve(n);
     match name {
-        "lending_account_withdraw" => {
-            let (a, _b) = (k(c, "accA"), k(c, "bk1"));
-            remaining_for(&c.w, &a, &[])
-        }
-        "lending_account_borrow" => {
-            let (a, b) = (k(c, "accA"), k(c, "bk2"));
-            remaining_for(&c.w, &a, &[b])
-        }
+        // group, marginfi_account, authority, bank, ...
+        "lending_account_withdraw" => match acct_key(c, m, 1) {
+            Some(a) => remaining_for(&c.w, &a, &[]),
+            None => vec![],
+        },
+        "lending_account_borrow" => match (acct_key(c, m, 1), bank_key(c, m, 3)) {
+            (Some(a), Some(b)) => remaining_for(&c.w, &a, &[b]),
+            _ => vec![],
+        },
+        // group, asset_bank, liab_bank, liquidator_marginfi_account, authority, liquidatee_marginfi_account, ...
         "lending_account_liquidate" => {
-            let (accl, accu) = (k(c, "accL"), k(c, "accU"));
-            let (bk1, bk2) = (k(c, "bk1"), k(c, "bk2"));
-            let mut r = remaining_for(&c.w, &accl, &[bk1, bk2]);
-            r.extend(remaining_for(&c.w, &accu, &[]));
-            r
+            match (bank_key(c, m, 1), bank_key(c, m, 2), acct_key(c, m, 3), acct_key(c, m, 5)) {
+                (Some(b1), Some(b2), Some(l), Some(u)) => {
+                    let mut r = remaining_for(&c.w, &l, &[b1, b2]);
+                    r.extend(remaining_for(&c.w, &u, &[]));
+                    r
+                }
+                _ => vec![],
+            }
         }
         "lending_pool_handle_bankruptcy" => {
             let a = k(c, "accBad");
@@ -1155,7 +1176,7 @@ pub fn run(line: &str) -> String {
             signers.push(key);
         }
     }
-    let data = ix_data(name, &mut c);
+    let data = ix_data(name, &mut c, &metas);
     let rem = remaining(name, &mut c, &metas);
     metas.extend(rem);
     let ix = Ix { program_id: marginfi::ID, accounts: metas, data };
@@ -1175,28 +1196,36 @@ pub fn run(line: &str) -> String {
     let _ = cap::take();
     let r = c.w.exec_tx(&tx, &signers);
     let log = cap::take();
-    let mut out = match &r {
-        Ok(()) => {
-            if mode == "val" {
-                "PASSV".to_string()
-            } else {
-                "OK".to_string()
-            }
+    // what a handler-body failure prints: `full`/`risk`: the code; `val`: PASSV (only validation is compared);
+    // `gate`: the code if it is a program error number, PASSB otherwise (venue CPI not available)
+    let body_fail = |e: &ExecError, prefix: &str| -> String {
+        match mode {
+            "val" => "PASSV".to_string(),
+            "gate" => match e {
+                ExecError::Custom(n) if GATE_CODES.contains(n) => format!("B {}{}", prefix, n),
+                _ => "PASSB".to_string(),
+            },
+            _ => format!("B {}{}", prefix, err_code(e)),
         }
+    };
+    let mut out = match &r {
+        Ok(()) => match mode {
+            "val" => "PASSV".to_string(),
+            "gate" => "PASSB".to_string(),
+            _ => "OK".to_string(),
+        },
         Err((i, e)) => {
             let cls = classify_log(&log);
             if *i != idx {
                 // the companion failed: the instruction under test passed validation and its body
-                if mode == "val" { "PASSV".to_string() } else { format!("B companion{}:{}", i, err_code(e)) }
+                body_fail(e, &format!("companion{}:", i))
             } else {
                 match cls {
                     Some((Phase::Validation(f), n)) => {
                         let code = n.map(|x| x.to_string()).unwrap_or_else(|| err_code(e));
                         format!("V {} {}", f, code)
                     }
-                    _ => {
-                        if mode == "val" { "PASSV".to_string() } else { format!("B {}", err_code(e)) }
-                    }
+                    _ => body_fail(e, ""),
                 }
             }
         }
